@@ -49,6 +49,45 @@ fn main() {
     };
     let tier = if tier == "thorough" { "thorough" } else { "quick" };
     let code = match id.as_str() {
+        "C12" => {
+            let findings = Findings::load();
+            let main = skv_verif::fmt_wal::c12(false);
+            if let Some(p) = replay {
+                let text = std::fs::read_to_string(&p).unwrap_or_default();
+                if text.contains("\"txns\"") {
+                    std::process::exit(replay_one(&skv_verif::fmt_wal::c12_store(), &p, &findings));
+                }
+                std::process::exit(replay_one(&main, &p, &findings));
+            }
+            let seed = seed_from_env();
+            let t0 = Instant::now();
+            let mut rep = Report::default();
+            run_replays(&main, &findings, &mut rep);
+            rep.merge(run_prop(&main, cases_for(tier, 600, 12000), seed, 0, &findings));
+            rep.merge(run_prop(&skv_verif::fmt_wal::c12(true), cases_for(tier, 120, 2400), seed, 1, &findings));
+            let store = skv_verif::fmt_wal::c12_store();
+            run_replays(&store, &findings, &mut rep);
+            rep.merge(run_prop(&store, cases_for(tier, 160, 3200), seed, 2, &findings));
+            finish(main.id, main.level, tier, seed, &main.rule, &main.assumptions, &rep, t0.elapsed().as_secs_f64(), &findings)
+        }
+        "C13" => {
+            let findings = Findings::load();
+            let main = skv_verif::fmt_sst::c13(40);
+            if let Some(p) = replay {
+                std::process::exit(replay_one(&main, &p, &findings));
+            }
+            let seed = seed_from_env();
+            let t0 = Instant::now();
+            let mut rep = Report::default();
+            run_replays(&main, &findings, &mut rep);
+            rep.merge(run_prop(&main, cases_for(tier, 6000, 120000), seed, 0, &findings));
+            rep.merge(run_prop(&skv_verif::fmt_sst::c13(200), cases_for(tier, 300, 6000), seed, 1, &findings));
+            let laws = run_prop(&skv_verif::fmt_sst::cmp_def(), cases_for(tier, 40000, 800000), seed, 2, &findings);
+            rep.extra.insert("comparator_law_cases".into(), serde_json::json!(laws.evaluations));
+            rep.extra.insert("comparator_law_cases_with_shortened_separator".into(), serde_json::json!(laws.nontrivial.len()));
+            rep.violations.extend(laws.violations);
+            finish(main.id, main.level, tier, seed, &main.rule, &main.assumptions, &rep, t0.elapsed().as_secs_f64(), &findings)
+        }
         "C18" => run_model(vec![(skv_verif::fmt_bptree::c18(60, false), 4000, 60000), (skv_verif::fmt_bptree::c18(300, false), 300, 6000), (skv_verif::fmt_bptree::c18(60, true), 400, 6000)], tier, replay),
         "C01" => run_model(vec![(props::c01(), 20000, 400000)], tier, replay),
         "C06" => run_model(vec![(props::c06(), 6000, 120000)], tier, replay),
